@@ -307,7 +307,31 @@ def c07_cases(tier, rng):
 
 
 # ------------------------------------------------------------------ C08
+def oracle_eof_after_its_ack(tr: Trace):
+    """After answering a NAK the sender resumes where it was: once the ACK of its EOF (no error) has been handed in and
+    accepted, that EOF is never emitted again, however much time passes."""
+    acked = False
+    for st in tr.steps:
+        if st.tag == 8 and st.ob["ret"] == 1:
+            acked = False
+        if st.tag in (3, 4):
+            return
+        if st.tag == 0 and st.ob["exc"] == 0 and st.pdu["kind"] == codec.K_ACK and st.pdu.get("acked") == 4 \
+                and st.prev is not None and st.prev["fields"]["step"] == 7:
+            acked = True
+        if acked and st.tag == 2 and st.ob["ret"] == 1:
+            g = codec.dec_got(st.ob["extra"])[0]
+            if g["kind"] == codec.K_EOF and g["cond"] == 0:
+                raise Failure(f"C08 the EOF PDU was emitted again after its ACK had been received: the source did not resume "
+                              f"where it was after a retransmission (op {st.i})")
+
+
 def oracle_c08(tr: Trace):
+    oracle_eof_after_its_ack(tr)
+    _oracle_c08_main(tr)
+
+
+def _oracle_c08_main(tr: Trace):
     """For every serviced NAK: exactly the requested tilings (and Metadata for (0,0)), nothing else; invalid requests
     rejected without data outside [0, progress); afterwards the original stream is unchanged."""
     puts = [st for st in tr.steps if st.tag == 8 and st.ob["ret"] == 1]
@@ -444,6 +468,12 @@ def multi_nak_source_case(cfg: Cfg, data, schedule, ack_eof_after=None, tag="c08
         for _ in range(len(data) + 4):
             if s.h.state.value == 0:
                 break
+            pump()
+        # the receiver stays quiet for a few Positive-ACK intervals: a sender whose EOF was acknowledged just waits
+        for _ in range(3):
+            if s.h.state.value == 0:
+                break
+            w.advance(cfg.ack_ms)
             pump()
         return ("source", s.ops, s.obs)
     finally:
